@@ -20,6 +20,8 @@ CONSTANTS Pairs,       \* source-frequency pairs, e.g. {1, 2}
           FileMode,    \* TRUE: fields are exchanged through files in file_dir
           MaxOps,      \* bound on the history length
           NObj,        \* 1: a single simulation; 2: original + copy/reloaded
+          Layered,     \* TRUE: layered=True (1D modeller: responses only,
+                       \*    no fields; gradient by finite differences)
           Deviations   \* "SharedFileDir": a copy / reloaded simulation keeps
                        \*    the file_dir of its original (as the code does)
                        \* "JtvecLeavesState": jtvec leaves Jt w in the gradient
@@ -89,6 +91,9 @@ EContent(r, f, p) == IF r.ef[p] = File THEN f[r.dir]["e"][p] ELSE r.ef[p]
 (* ---- pure state transformers: <<new record, new files>> ----------------- *)
 (* _compute(pairs): solve, store efield (+info), sample the receivers        *)
 ComputeF(r, f, ps) ==
+  IF Layered       \* _compute_1d(): all responses, nothing else is touched
+  THEN <<[r EXCEPT !.syn = [p \in Pairs |-> r.mv]], f>>
+  ELSE
   LET r1 == [r EXCEPT !.ef = [p \in Pairs |-> IF p \in ps
                                 THEN (IF FileMode THEN File ELSE r.mv)
                                 ELSE r.ef[p]],
@@ -103,7 +108,7 @@ ComputeF(r, f, ps) ==
 
 (* _compute() first loads the previous efield of each pair as start value;  *)
 (* that fails if the hand-over file has been removed (shared file_dir)      *)
-ComputeOK(r, f, ps) == \A p \in ps : EContent(r, f, p) # Gone
+ComputeOK(r, f, ps) == Layered \/ \A p \in ps : EContent(r, f, p) # Gone
 
 (* compute(): all pairs, then _computed = True *)
 ComputeAllF(r, f) ==
@@ -135,6 +140,13 @@ EProv(r, f) == IF \E m \in 0..MaxModel : \A p \in Pairs : EContent(r, f, p) = m
 GradientF(r, f) ==
   IF r.grad # NoGrad THEN <<r, f, "value", r.grad>>
   ELSE IF ~MisfitOK(r, f) THEN <<r, f, "error", NoGrad>>
+  ELSE IF Layered     \* finite differences with the 1D modeller: no
+                      \* back-propagation, no tolerance switch
+  THEN LET c == MisfitF(r, f)
+           r1 == c[1]
+           drv == IF r1.res = Vec \/ r1.w = r1.ob THEN r1.res ELSE Mixed
+           g == <<r1.mv, drv>>
+       IN <<[r1 EXCEPT !.grad = g], c[2], "value", g>>
   ELSE LET c == MisfitF(r, f)
            r1 == c[1]
            f1 == c[2]
@@ -154,6 +166,7 @@ GradientF(r, f) ==
                     "value", g>>
 
 JvecF(r, f) ==
+  IF Layered THEN <<r, f, "error", None>> ELSE      \* NotImplementedError
   IF ~MisfitOK(r, f) THEN <<r, f, "error", None>> ELSE
   LET c == MisfitF(r, f)
       r1 == c[1]
@@ -267,6 +280,7 @@ Jtvec(o) ==
 (* get_efield / get_hfield(p): compute that pair only if it is missing *)
 GetField(o, p, which) ==
   /\ Step /\ S[o].ex
+  /\ ~Layered
   /\ LET c == IF EContent(S[o], files, p) \in {None}
               THEN ComputeF(S[o], files, {p}) ELSE <<S[o], files>>
          e == EContent(c[1], c[2], p)
@@ -279,6 +293,12 @@ GetField(o, p, which) ==
            THEN Ret(which, o, ToString(p), "error", None)
            ELSE Ret(which, o, ToString(p), "value", e)
   /\ UNCHANGED nextModel
+
+(* layered: "No fields if `layered` is used." *)
+GetFieldLayered(o, p, which) ==
+  /\ Step /\ S[o].ex /\ Layered
+  /\ Ret(which, o, ToString(p), "error", None)
+  /\ UNCHANGED <<S, files, nextModel>>
 
 Clean(o, what) ==
   /\ Step /\ S[o].ex
@@ -323,6 +343,7 @@ Next ==
   \E o \in Objs :
      \/ Compute(o) \/ ComputeObs(o) \/ Misfit(o) \/ Gradient(o) \/ Jvec(o) \/ Jtvec(o)
      \/ \E p \in Pairs : GetField(o, p, "efield") \/ GetField(o, p, "hfield")
+     \/ \E p \in Pairs : GetFieldLayered(o, p, "efield") \/ GetFieldLayered(o, p, "hfield")
      \/ \E w \in CleanWhats : Clean(o, w)
      \/ ModelUpdate(o)
      \/ \E w \in Whats : DictRT(o, w)
